@@ -144,6 +144,20 @@ class NumStr(SpecialStr):
         raise Unmodelled('%s on numeral' % name)
 
     def parse_hook(self, ctx, ty):
+        if self.pre == '-' and not self.suf and not self.signed:
+            # "-<digits>": a negative literal
+            if ty == 'f64':
+                return ok(z3.fpNeg(z3.fpToFPUnsigned(z3.RNE(), self.bv, z3.Float64())))
+            if ty in INT_W and ty not in SIGNED:
+                return err(UNIT) if True else None
+            if ty in SIGNED:
+                w = INT_W[ty]
+                if w >= self.bv.size():
+                    v = z3.ZeroExt(w - self.bv.size(), self.bv) if w > self.bv.size() else self.bv
+                    fits = z3.ULE(self.bv, z3.BitVecVal(1 << (w - 1), self.bv.size()))
+                    if ctx.decide(fits):
+                        return ok(-v)
+                    return err(UNIT)
         if self.pre or self.suf:
             # "<digits><suffix>" is not an integer / float literal unless the suffix is empty
             if ty in INT_W or ty == 'f64':
